@@ -179,6 +179,18 @@ namespace GeographicLib {
         t[i] = char(std::toupper(s[i]));
       return t == "NAN" || s == "NA";
     }
+    // RW1: the bare byte is rewritten before the UTF-8 sequence that ends in it; '' is paired before ` becomes '
+    static void Sub(std::string& s, const std::string& pat, char c) {
+      for (std::string::size_type p = 0; (p = s.find(pat, p)) != std::string::npos; ++p) s.replace(p, pat.size(), 1, c);
+    }
+    static std::string Canon(const std::string& in) {
+      std::string t = in;
+      Sub(t, "\xb0", 'd');
+      Sub(t, "\xc2\xb0", 'd');
+      Sub(t, "''", '"');
+      Sub(t, "`", '\'');
+      return t;
+    }
     // CP1: the northing clause is a copy of the easting clause with one name left behind
     static double Pad(double easting, double northing, double scale) {
       double w = 0;
